@@ -413,7 +413,7 @@ class _resolve_called_lambdas(ast.NodeTransformer):
         if a.vararg or a.kwarg or a.kwonlyargs or a.posonlyargs or a.defaults:
             return None
         names = [arg.arg for arg in a.args]
-        if len(node.args) > len(names):
+        if len(node.args) > len(names) or any(isinstance(x, ast.Starred) for x in node.args):
             return None
         bound = dict(zip(names, node.args))
         for kw in node.keywords:
